@@ -139,6 +139,35 @@ def check_forced_exits(run, res):
             res.violate("forced-exit-order",
                         "scheduler %d: still-alive doers entered in order %s were exited in order %s (want %s)" % (
                             sid, list(reversed(want)), got, want))
+    # forced exits inside one remove() call, and of doers already entered by an extend() whose later
+    # member failed in enter: also reverse enter order
+    i = 0
+    while i < len(trace):
+        e = trace[i]
+        if e[0] in ("remove_call", "extend_call"):
+            caller, sid = e[1], e[2]
+            closing = ("remove_return",) if e[0] == "remove_call" else ("extend_return", "extend_raise")
+            j = i + 1
+            while j < len(trace) and not (trace[j][0] in closing and trace[j][1] == caller and trace[j][2] == sid):
+                j += 1
+            if e[0] == "extend_call" and (j >= len(trace) or trace[j][0] != "extend_raise"):
+                i += 1
+                continue
+            kids = set(children.get(sid, []))
+            ceased = set(x[1] for x in trace[i + 1:j] if x[0] == "cease")      # forced exits only
+            exited = [x[1] for x in trace[i + 1:j] if x[0] == "exit" and x[1] in kids and x[1] in ceased]
+            if len(exited) >= 2:
+                n += 1
+                want = sorted(exited, key=lambda k: -pos_enter.get(k, 0))
+                if exited != want:
+                    if exited == _f4_order(run, sid, set(exited)):
+                        res.finding("F4", "scheduler %d: doers removed in one call exited %s, entered %s" % (sid, exited, list(reversed(want))))
+                    else:
+                        res.violate("forced-exit-order-remove" if e[0] == "remove_call" else "forced-exit-order-extend-cleanup",
+                                    "scheduler %d: doers force-exited by one %s entered in order %s were exited in order %s (want %s)" % (
+                                        sid, "remove()" if e[0] == "remove_call" else "failed extend()", list(reversed(want)), exited, want))
+            i = j
+        i += 1
     return n
 
 
